@@ -65,12 +65,21 @@ func canonOf(m util.Message) interface{} {
 
 var recKinds = []string{"vlan", "option", "igmp12", "igmp3q", "igmp3gr", "igmp3r", "dhcp", "lldp", "lldpchassis", "lldpport", "lldpttl"}
 
+// ipForm: an IPv4 address in its 4-byte or, one time in three, its 16-byte (IPv4-mapped) form;
+// the encoders go through To4, the decoders give the 4-byte form back
+func (g *G) ipForm(b []byte) net.IP {
+	if g.r.Intn(3) == 0 {
+		return net.IPv4(b[0], b[1], b[2], b[3])
+	}
+	return net.IP(append([]byte{}, b...))
+}
+
 func (g *G) bytesList(n int) ([]net.IP, []string) {
 	ips := make([]net.IP, n)
 	ts := make([]string, n)
 	for i := range ips {
 		b := g.r.Bytes(4)
-		ips[i] = net.IP(b)
+		ips[i] = g.ipForm(b)
 		ts[i] = packBytes(b)
 	}
 	return ips, ts
@@ -84,7 +93,7 @@ func (g *G) groupRecord() (protocol.IGMPv3GroupRecord, string) {
 	if g.r.Intn(3) > 0 {
 		ty = uint8(1 + g.r.Intn(6))
 	}
-	r := protocol.NewGroupRecord(ty, net.IP(mc), srcs)
+	r := protocol.NewGroupRecord(ty, g.ipForm(mc), srcs)
 	var aux []string
 	if g.r.Intn(4) == 0 { // auxiliary data words
 		na := 1 + g.r.Intn(3)
@@ -122,15 +131,15 @@ func (g *G) recValue(kind string) (util.Message, string) {
 		var p *protocol.IGMPv1or2
 		switch g.r.Intn(5) {
 		case 0:
-			p = protocol.NewIGMPv1Query(net.IP(gr))
+			p = protocol.NewIGMPv1Query(g.ipForm(gr))
 		case 1:
-			p = protocol.NewIGMPv1Report(net.IP(gr))
+			p = protocol.NewIGMPv1Report(g.ipForm(gr))
 		case 2:
-			p = protocol.NewIGMPv2Query(net.IP(gr), uint8(g.r.Bits(8)))
+			p = protocol.NewIGMPv2Query(g.ipForm(gr), uint8(g.r.Bits(8)))
 		case 3:
-			p = protocol.NewIGMPv2Report(net.IP(gr))
+			p = protocol.NewIGMPv2Report(g.ipForm(gr))
 		default:
-			p = protocol.NewIGMPv2Leave(net.IP(gr))
+			p = protocol.NewIGMPv2Leave(g.ipForm(gr))
 		}
 		p.Checksum = uint16(g.r.Bits(16))
 		if g.r.Intn(4) == 0 {
@@ -141,7 +150,7 @@ func (g *G) recValue(kind string) (util.Message, string) {
 		n := g.r.Geom(3, 40)
 		srcs, sts := g.bytesList(n)
 		gr := g.r.Bytes(4)
-		p := protocol.NewIGMPv3Query(net.IP(gr), uint8(g.r.Bits(8)), uint8(g.r.Bits(8)), srcs)
+		p := protocol.NewIGMPv3Query(g.ipForm(gr), uint8(g.r.Bits(8)), uint8(g.r.Bits(8)), srcs)
 		p.Checksum, p.SuppressRouterProcessing, p.RobustnessValue = uint16(g.r.Bits(16)), g.r.Bool(), uint8(g.r.Bits(3))
 		if g.r.Intn(4) == 0 {
 			p.Type = uint8(g.r.Bits(8))
@@ -196,7 +205,7 @@ func (g *G) recValue(kind string) (util.Message, string) {
 			case 0:
 				d.Options = append(d.Options, protocol.DHCPNewOption(protocol.DHCP_OPT_PAD, []byte{}))
 			case 1:
-				o, _ := protocol.DHCPIP4Option(byte(1+g.r.Intn(250)), net.IP(g.r.Bytes(4)))
+				o, _ := protocol.DHCPIP4Option(byte(1+g.r.Intn(250)), g.ipForm(g.r.Bytes(4)))
 				d.Options = append(d.Options, o)
 			case 2:
 				ips, _ := g.bytesList(g.r.Intn(5))
